@@ -1,7 +1,7 @@
 (* C05: the extension accessors refine an ordered map; accepted values survive the wire. *)
 From Coq Require Import ZArith List Lia Bool.
 From Coq Require Import ZifyBool.
-From RTP Require Import Base.Bits Base.Res Base.ListX Base.Bytes Base.Tactics Model.RtpPacket Spec.OrderedMap
+From RTP Require Import Base.Bits Base.Res Base.ListX Base.Bytes Base.Tactics Model.RtpPacket Spec.OrderedMap Proofs.ExtForm
   Spec.Rfc8285 Spec.Rfc3550 Proofs.ExtLoop Proofs.Decode3550 Proofs.C01_Roundtrip.
 Import ListNotations.
 Open Scope Z_scope.
@@ -55,7 +55,7 @@ Definition valid_for (profile id : Z) (v : list Z) : option err :=
   if profile =? profile_one_byte then
     if (id <? 1) || (14 <? id) then Some EIdRange
     else if (zlen v =? 0) || (16 <? zlen v) then Some ESize else None
-  else if profile =? profile_two_byte then
+  else if ext_form profile =? profile_two_byte then
     if id <? 1 then Some EIdRange else if 255 <? zlen v then Some ESize else None
   else if negb (id =? 0) then Some EIdRange else if 262140 <? zlen v then Some ESize else None.
 
@@ -120,7 +120,7 @@ Proof.
         pose proof (set_existing_spec id v (extensions h)) as Hs.
         destruct (set_existing id v (extensions h)); cbn [extension extension_profile extensions with_exts];
           rewrite <- Hs; (split; [reflexivity|intros; discriminate]).
-      * destruct (extension_profile h =? profile_two_byte) eqn:E2.
+      * destruct (ext_form (extension_profile h) =? profile_two_byte) eqn:E2.
         -- destruct (id <? 1); [split; [rewrite ?Hx; reflexivity|exact Hshape]|].
            destruct (255 <? zlen v); [split; [rewrite ?Hx; reflexivity|exact Hshape]|].
            pose proof (set_existing_spec id v (extensions h)) as Hs.
@@ -219,7 +219,7 @@ Proof.
     { unfold ext_body, ext_block_size in *.
       destruct (extension_profile h =? profile_one_byte).
       - injection Eb as <-. apply zlen_body_one.
-      - destruct (extension_profile h =? profile_two_byte).
+      - destruct (ext_form (extension_profile h) =? profile_two_byte).
         + injection Eb as <-. apply zlen_body_two.
         + destruct (extensions h) as [|e t]; [injection Eb as <-; reflexivity|].
           destruct (zlen (epayload e) mod 4 =? 0); [injection Eb as <-; reflexivity|discriminate]. }
@@ -235,7 +235,7 @@ Proof.
   destruct (ext_body h) eqn:Eb; cbn [bind]; try discriminate.
   unfold ext_body in Eb.
   destruct (extension_profile h =? profile_one_byte); [discriminate|].
-  destruct (extension_profile h =? profile_two_byte); [discriminate|].
+  destruct (ext_form (extension_profile h) =? profile_two_byte); [discriminate|].
   destruct (extensions h) as [|e t]; [discriminate|]. destruct (zlen (epayload e) mod 4 =? 0); discriminate.
 Qed.
 
@@ -277,7 +277,7 @@ Definition exts_inv (h : header) : Prop :=
   extension h = true ->
   NoDup (ids h) /\ 0 <= extension_profile h < 65536 /\
   if extension_profile h =? profile_one_byte then Forall wf_ext1s (extensions h)
-  else if extension_profile h =? profile_two_byte then Forall wf_ext2 (extensions h)
+  else if ext_form (extension_profile h) =? profile_two_byte then Forall wf_ext2 (extensions h)
   else Forall (fun e => eid e = 0 /\ zlen (epayload e) <= 262140) (extensions h).
 
 Lemma set_existing_ids id v es :
@@ -362,7 +362,7 @@ Proof.
         destruct (upd_inv wf_ext1s id v (extensions h) Hnd Hall ltac:(unfold wf_ext1s; cbn [eid epayload]; lia)) as [U1 U2].
         destruct (set_existing id v (extensions h)); cbn [fst]; intros _; unfold ids;
           cbn [extensions extension_profile with_exts]; rewrite E1; auto.
-      * destruct (extension_profile h =? profile_two_byte) eqn:E2.
+      * destruct (ext_form (extension_profile h) =? profile_two_byte) eqn:E2.
         -- destruct (id <? 1) eqn:Ea; [cbn [fst]; intros _; rewrite E1, E2; auto|].
            destruct (255 <? zlen v) eqn:Eb; [cbn [fst]; intros _; rewrite E1, E2; auto|].
            destruct (upd_inv wf_ext2 id v (extensions h) Hnd Hall ltac:(unfold wf_ext2; cbn [eid epayload]; lia)) as [U1 U2].
@@ -383,7 +383,7 @@ Proof.
       * destruct ((zlen v <? 256) && (1 <=? id)) eqn:Eb.
         -- cbn [fst]. intros _. unfold ids. cbn [extensions extension_profile with_exts map eid].
            change (profile_two_byte =? profile_one_byte) with false.
-           change (profile_two_byte =? profile_two_byte) with true. cbv iota.
+           change (ext_form profile_two_byte =? profile_two_byte) with true. cbv iota.
            repeat split; try (unfold profile_two_byte; lia); [repeat constructor; intros []|].
            constructor; [unfold wf_ext2; cbn [eid epayload]; lia|constructor].
         -- destruct (id <? 1); cbn [fst]; intros Hx'; rewrite Hx in Hx'; discriminate.
@@ -395,7 +395,7 @@ Proof.
     intros _. unfold ids. cbn [extensions extension_profile with_exts].
     split; [apply D2; assumption|]. split; [assumption|].
     destruct (extension_profile h =? profile_one_byte); [apply D1; assumption|].
-    destruct (extension_profile h =? profile_two_byte); apply D1; assumption.
+    destruct (ext_form (extension_profile h) =? profile_two_byte); apply D1; assumption.
 Qed.
 
 Lemma run_preserves_inv : forall ops h, Forall op_ok ops -> shape_ok h -> exts_inv h ->
@@ -440,12 +440,12 @@ Proof. unfold zlen. rewrite map_length. reflexivity. Qed.
 
 (* reachable one-byte and two-byte headers are well-formed in the sense of C01 *)
 Lemma inv_wf_rfc8285 h : fixed_ok h -> extension h = true -> exts_inv h ->
-  (extension_profile h = profile_one_byte \/ extension_profile h = profile_two_byte) -> wf_header h.
+  (extension_profile h = profile_one_byte \/ ext_form (extension_profile h) = profile_two_byte) -> wf_header h.
 Proof.
   intros Hf Hx Hinv Hp. destruct (Hinv Hx) as (Hnd & Hprof & Hall). unfold ids in Hnd.
   destruct Hf as (F1 & F2 & F3 & F4 & F5 & F6 & F7).
   unfold wf_header. repeat (split; [assumption|]). unfold wf_exts. rewrite Hx.
-  destruct Hp as [Hp|Hp]; rewrite Hp in *.
+  destruct Hp as [Hp|Hp]; [rewrite Hp in *|].
   - change (profile_one_byte =? profile_one_byte) with true in Hall. cbv iota in Hall.
     split; [left; split; [reflexivity|eapply Forall_impl; [|exact Hall]; apply wf_ext1s_weak]|].
     unfold ext_block_size. rewrite Hp. change (profile_one_byte =? profile_one_byte) with true. cbv iota.
@@ -454,11 +454,9 @@ Proof.
     { apply nodup_range_length; [lia|assumption|]. apply Forall_map. eapply Forall_impl; [|exact Hall].
       intros e [He _]. exact He. }
     rewrite zlen_map in Hlen. lia.
-  - change (profile_two_byte =? profile_one_byte) with false in Hall.
-    change (profile_two_byte =? profile_two_byte) with true in Hall. cbv iota in Hall.
-    split; [right; left; split; [reflexivity|assumption]|].
-    unfold ext_block_size. rewrite Hp. change (profile_two_byte =? profile_one_byte) with false.
-    change (profile_two_byte =? profile_two_byte) with true. cbv iota.
+  - rewrite (two_not_one _ Hprof Hp), Hp, Z.eqb_refl in Hall. cbv iota in Hall.
+    split; [right; left; split; [exact Hprof|split; [exact Hp|assumption]]|].
+    unfold ext_block_size. rewrite (two_not_one _ Hprof Hp), Hp, Z.eqb_refl. cbv iota.
     rewrite fold_size_two. pose proof (body2_bound _ Hall) as Hb.
     assert (Hlen : zlen (map eid (extensions h)) <= 255).
     { apply nodup_range_length; [lia|assumption|]. apply Forall_map. eapply Forall_impl; [|exact Hall].
@@ -472,13 +470,13 @@ Theorem accepted_survives_wire h id v :
   fixed_ok h -> extension h = true -> exts_inv h ->
   get_extension h id = Some v ->
   (header_marshal h = Err EShortBuffer /\ zlen v mod 4 <> 0 /\
-   extension_profile h <> profile_one_byte /\ extension_profile h <> profile_two_byte)
+   extension_profile h <> profile_one_byte /\ ext_form (extension_profile h) <> profile_two_byte)
   \/ (exists bs r, header_marshal h = Ok bs /\ header_unmarshal_into empty_header bs = Ok r /\
                    get_extension (hr_header r) id = Some v).
 Proof.
   intros Hf Hx Hinv Hget.
   destruct (Z.eq_dec (extension_profile h) profile_one_byte) as [Hp1|Hp1];
-    [|destruct (Z.eq_dec (extension_profile h) profile_two_byte) as [Hp2|Hp2]].
+    [|destruct (Z.eq_dec (ext_form (extension_profile h)) profile_two_byte) as [Hp2|Hp2]].
   - right. pose proof (inv_wf_rfc8285 h Hf Hx Hinv (or_introl Hp1)) as Hwf.
     destruct (header_roundtrip h Hwf) as (bs & Hm & _ & offs & Hu).
     exists bs, (mkHdrResult h (header_marshal_size h) offs []). repeat split; assumption.
@@ -488,7 +486,7 @@ Proof.
   - (* legacy: all ids are 0 and distinct, so there is exactly one element, the value asked for *)
     destruct (Hinv Hx) as (Hnd & Hprof & Hall). unfold ids in Hnd.
     destruct (extension_profile h =? profile_one_byte) eqn:E1; [lia|].
-    destruct (extension_profile h =? profile_two_byte) eqn:E2; [lia|].
+    destruct (ext_form (extension_profile h) =? profile_two_byte) eqn:E2; [lia|].
     unfold get_extension in Hget. rewrite Hx in Hget. cbn [negb] in Hget.
     destruct (extensions h) as [|e t] eqn:Hes; [discriminate|].
     assert (Ht : t = []).
